@@ -129,8 +129,26 @@ pub fn table_case(max_ops: usize) -> impl Strategy<Value = TableCase> {
         vec(any::<u16>(), 0..=3),
         prop::bool::weighted(0.2),
         vec(op(), 1..max_ops),
+        // deep tables: a prefix of offers that fills bucket after bucket (8 nodes sharing exactly
+        // b prefix bits, for b = 0..depth), which drives the table to `depth`+1 buckets -- up to
+        // the maximum of 160 -- before the free-form operations start
+        prop_oneof![32 => Just(0u8), 6 => 1u8..40, 1 => 40u8..150, 1 => 150u8..=160],
+        any::<u64>(),
     )
-        .prop_map(|(local, routers, mixed_family, ops)| TableCase { local, routers, mixed_family, ops })
+        .prop_map(|(local, routers, mixed_family, mut ops, depth, salt)| {
+            if depth > 0 {
+                let mut pre = Vec::with_capacity(depth as usize * 8);
+                for b in 0..depth.min(160) {
+                    for k in 0..8u8 {
+                        let x = crate::engine::splitmix(salt ^ ((b as u64) << 8) ^ k as u64);
+                        pre.push(Op::Offer { good: x % 4 != 0, id: IdSpec::Abs { bit: b.min(159), tail: 20 + k }, addr: (x >> 8) as u16 });
+                    }
+                }
+                pre.extend(ops);
+                ops = pre;
+            }
+            TableCase { local, routers, mixed_family, ops }
+        })
 }
 
 // ---------------------------------------------------------------------------------------------
